@@ -34,6 +34,9 @@ type C12Case struct {
 	App      *app.App `json:"app"`
 	Sessions []string `json:"sessions"`
 	Requests []C12Req `json:"requests"`
+	// Shm: the store directory lies on another file system (/dev/shm) than the temporary
+	// directory the process is given (TMPDIR): a file cannot be renamed from one to the other
+	Shm bool `json:"shm,omitempty"`
 }
 
 var infraFailure string
@@ -91,6 +94,7 @@ func genC12(t *rapid.T) C12Case {
 	if len(c.Requests) > 12 {
 		c.Requests = c.Requests[:12]
 	}
+	c.Shm = chancePct(t, 25, "shm")
 	return c
 }
 
@@ -113,6 +117,22 @@ func checkC12(c C12Case) (o Outcome) {
 	work := workDir()
 	defer os.RemoveAll(work)
 	dir := filepath.Join(work, "store")
+	tmpdir := filepath.Join(work, "tmp")
+	os.MkdirAll(tmpdir, 0700)
+	if c.Shm {
+		if fi, err := os.Stat("/dev/shm"); err != nil || !fi.IsDir() {
+			o.Discard = "no-second-file-system"
+			return
+		}
+		shm, err := os.MkdirTemp("/dev/shm", "verif-c12-")
+		if err != nil {
+			o.Discard = "no-second-file-system"
+			return
+		}
+		defer os.RemoveAll(shm)
+		dir = filepath.Join(shm, "store")
+		o.class("store-on-another-file-system")
+	}
 	job := map[string]any{"app": c.App, "dir": dir, "sessions": c.Sessions, "requests": c.Requests}
 	jb, _ := json.Marshal(job)
 	jobPath := filepath.Join(work, "job.json")
@@ -124,6 +144,7 @@ func checkC12(c C12Case) (o Outcome) {
 	cmd := exec.Command("strace", "-f", "-xx", "-s", "10000000", "-o", tracePath,
 		"-e", "trace=%file,write,pwrite64,pwritev,pwritev2,writev,close,ftruncate,fsync,fdatasync,fallocate,dup,dup2,dup3,fcntl,sendfile,copy_file_range,splice",
 		saverPath(), jobPath)
+	cmd.Env = append(os.Environ(), "TMPDIR="+tmpdir)
 	var stdout, stderr bytes.Buffer
 	cmd.Stdout, cmd.Stderr = &stdout, &stderr
 	if err := cmd.Run(); err != nil {
@@ -136,7 +157,7 @@ func checkC12(c C12Case) (o Outcome) {
 		o.Discard = "saver-request-panicked"
 		return
 	}
-	ops, err := crashfs.Parse(tracePath, dir)
+	ops, err := crashfs.Parse(tracePath, dir, tmpdir)
 	if err != nil {
 		return infra("trace not usable: %v", err)
 	}
